@@ -411,7 +411,7 @@ SITES = [
          why="source part = word/document.xml"),
     dict(rel=XLSX, fn="_extract_images_from_zip", sinks=("read_bytes",), keys=("target",), base=("dirname", "@items-loop-value"), label="drawing-image",
          why="source part = the drawing part `drawing_path`"),
-    dict(rel=EPUB, fn="_extract_images", sinks=("read_bytes",), keys=("href",), base=("field", "ctx", "_opf_dir"), label="manifest-image",
+    dict(rel=EPUB, fn="_extract_images", sinks=("read_bytes",), keys=("href",), base=("field", "ctx", "_opf_dir"), decode=True, label="manifest-image",
          why="source part = the OPF package document", makers={"ctx": ("obj", "_EpubContext", ("_opf_dir",))}),
     dict(rel=ODT, fn="_extract_images_from_context", sinks=("read_bytes",), keys=HREF_KEYS, base=("const", ""), label="frame-image",
          why="ODF: package-relative IRI resolved against the package root"),
@@ -667,6 +667,8 @@ def run_site(site, repo, reg=None, uni=None):
             if "spec" in site:
                 return VStr(site["spec"](c))
             t = c.args["__target"].t
+            if site.get("decode"):
+                t = SP.PCT(t)         # IRI reference: percent-decoded before it is resolved
             if b[0] == "const":
                 base = z3.StringVal(b[1])
             elif b[0] == "dirname":
@@ -1112,12 +1114,24 @@ def _ct_from_extension(ck, sites, of_names, label="looked-up-by-the-lower-cased-
     ck.add("content-type", label, True)
 
 
+COMPLETENESS_FNS = {}
+
+
+def _init_completeness():
+    COMPLETENESS_FNS.update({DOCX: ("_extract_images_from_context",), PPTX: ("_process_slide_from_context",), XLSX: ("_extract_images_from_zip",),
+                             ODT: ("_extract_images_from_context",), ODS: ("_extract_images",), ODG: ("_extract_images",), ODP: ("_extract_image",),
+                             EPUB: ("_extract_images",)})
+
+
 def image_sites(repo, tier):
+    _init_completeness()
     from contracts import c14_sites as SI
     from contracts.c14_flow import reaching, parent_map
     obls, fns, und = [], [], []
 
     def done(ck):
+        if ck.fname in COMPLETENESS_FNS.get(ck.rel, ()) and not any("/completeness#" in o["id"] and f"::{ck.fname}/" in o["id"] and ck.short in o["id"] for o in obls):
+            SI.completeness(ck)
         obls.extend(ck.obls)
         fns.append(dict(ck.mod.fn_info(ck.real), obligations=len(ck.obls)))
 
@@ -1731,6 +1745,128 @@ def _view_contracts(v: ViewSpec, images_only=False):
     return out
 
 
+# =====================================================================================
+# pdf: content type of an image = what its LAST stream filter says (the filters of an array are applied in order when decoding;
+# the last one is the encoding of the image itself: [/FlateDecode /DCTDecode] is a deflated JPEG)
+# =====================================================================================
+PDF_FILTER_NAME = z3.String("pdf.image./Filter.name")
+PDF_FILTER_LIST = z3.Const("pdf.image./Filter.array", X.SS)
+PDF_SPEC_TYPES = {"/DCTDecode": "image/jpeg", "/JPXDecode": "image/jp2"}
+
+
+def _m_pdf_dict_get(ex, st, obj, args, kwargs, node):
+    """image dictionary .get(key, default): /Filter is a name, an array of names (any length) or absent; other entries are unknown values"""
+    key = args[0].const() if args and isinstance(args[0], VStr) else None
+    if key in ("/Width", "/Height"):
+        t = z3.Int(f"pdf.image.{key}")
+        st.assume(t >= 0)
+        st.ghost["pdf" + key] = t
+        return [(st, VInt(t))]
+    if key != "/Filter":
+        return ex.havoc_call(st, "PdfImageDict.get", [], node)
+    out = []
+    s1 = st.fork()
+    s1.ghost["pdf_last_filter"] = PDF_FILTER_NAME
+    out.append((s1, VStr(PDF_FILTER_NAME)))
+    s2 = st.fork()
+    n = z3.Length(PDF_FILTER_LIST)
+    s2.ghost["pdf_last_filter"] = z3.If(n > 0, PDF_FILTER_LIST[n - 1], z3.StringVal(""))
+    out.append((s2, X.zl(s2, ex, PDF_FILTER_LIST, fresh=False, ekind="str")))
+    if len(args) > 1:
+        s3 = st.fork()
+        s3.ghost["pdf_last_filter"] = args[1].t if isinstance(args[1], VStr) else z3.StringVal("")
+        out.append((s3, args[1]))
+    return out
+
+
+def pdf_image_contract(reg):
+    from pyvc.verify import p_ext, p_int, p_unk
+    reg.method_models[("PdfImageDict", "get")] = _m_pdf_dict_get
+    qn = real_name(PDF, "_extract_image")
+    fn = loader.module(PDF).functions.get(qn)
+    names = [a.arg for a in fn.args.args] if fn is not None else ["image_obj", "name", "index", "page_num", "caption"]
+    makers = [p_ext("PdfImageDict"), p_unk(), p_int(1, None), p_int(1, None), p_str()]
+    params = list(zip(names, makers[:len(names)] + [p_unk()] * max(0, len(names) - len(makers))))
+
+    def content_type_of(c):
+        r = c.result
+        if isinstance(r, VRef) and c.st.obj(r.ref).kind == "obj":
+            v = c.st.obj(r.ref).data.get("content_type")
+            return v if isinstance(v, VStr) else None
+        return None
+
+    def e_ct(c):
+        last = c.st.ghost.get("pdf_last_filter")
+        ct = content_type_of(c)
+        if last is None or ct is None:
+            return z3.BoolVal(False)
+        return z3.And([z3.Implies(last == z3.StringVal(f), ct.t == z3.StringVal(t)) for f, t in PDF_SPEC_TYPES.items()])
+    def fld_of(c, f):
+        r = c.result
+        if isinstance(r, VRef) and c.st.obj(r.ref).kind == "obj":
+            return c.st.obj(r.ref).data.get(f)
+        return None
+
+    def e_size(c):
+        w, h = fld_of(c, "width"), fld_of(c, "height")
+        gw, gh = c.st.ghost.get("pdf/Width"), c.st.ghost.get("pdf/Height")
+        if not isinstance(w, VInt) or not isinstance(h, VInt) or gw is None or gh is None:
+            return z3.BoolVal(False)
+        return z3.And(ops.int_term(w) == gw, ops.int_term(h) == gh)
+
+    def e_ids(c):
+        i, u = fld_of(c, "index"), fld_of(c, "unit_name")
+        if not isinstance(i, VInt) or not isinstance(u, VInt) or len(names) < 4:
+            return z3.BoolVal(False)
+        return z3.And(ops.int_term(i) == c.args[names[2]].t, ops.int_term(u) == c.args[names[3]].t)
+    c = FnContract(target=f"{PDF}::{qn}", oid_name="_extract_image", params=params,
+                   ensures=[("content-type-of-the-last-filter", e_ct), ("size-is-the-declared-width-and-height", e_size),
+                            ("number-and-page-are-the-arguments", e_ids)], raises=[Raises("Exception", sub=True)],
+                   note="content type = the type named by the last filter of the image's filter chain (name, array of any length, or absent)")
+    return c
+
+
+def pdf_content_type(repo, tier):
+    """pdf `_extract_image`: symbolic execution of the real function (private helpers inlined at AST level, everything else abstracted) over an
+    image dictionary whose /Filter is a name, an array of names of any length, or absent."""
+    from pyvc import verify
+    from pyvc.contracts import Registry
+    from pyvc.exctypes import Universe
+    reg = Registry()
+    for c0 in contracts(reg):
+        reg.add(c0)
+    uni = Universe(repo)
+    c = pdf_image_contract(reg)
+    mod = loader.module(PDF, repo)
+    qn = real_name(PDF, "_extract_image", repo)
+    oid = "C14/pdf_extractor.py::_extract_image/ensures#content-type-of-the-last-filter"
+    if mod.functions.get(qn) is None:
+        return {"obligations": [], "functions": [], "undecided": [{"obligation": f"{PDF}::_extract_image", "why": "contract-target-missing"}]}
+    fn, _inl = inline_helpers(mod, qn)
+    ex = C14Executor(mod, reg, uni, abstract=True, inline_calls=False)
+    ex.contract = c
+    ex.oid_prefix = "pdf"
+    labels = ("content-type-of-the-last-filter", "size-is-the-declared-width-and-height", "number-and-page-are-the-arguments")
+    base = "C14/pdf_extractor.py::_extract_image/ensures#"
+    ds = []
+    try:
+        got, _cov = verify.generate(ex, c, mod, fn)
+        for lab in labels:
+            ob = got.get(f"pdf/ensures#{lab}")
+            if ob is None:
+                raise ops.Unsupported("no normal outcome")
+            d = _unvalidated_to_unknown(verify.discharge(ob, None, getattr(ex, "witness_terms", {})))
+            d.update(id=base + lab, function=f"{PDF}::{qn}", loc=PDF)
+            ds.append(d)
+    except Exception as e:  # noqa
+        ds = []
+        for lab in labels:
+            d = ground_obligation(base + lab, False, f"not executable: {type(e).__name__}: {e}", PDF, kind="ensures", definite=False)
+            d.update(function=f"{PDF}::{qn}")
+            ds.append(d)
+    return confirm_natively({"obligations": ds, "functions": [dict(mod.fn_info(qn), obligations=len(ds))]}, repo)
+
+
 def contracts(reg):
     X.install_models(reg)
     out = [resolver_contract()] + delegating_resolvers()
@@ -1741,6 +1877,7 @@ def contracts(reg):
     C03.install_opaque()
     _install_views()
     out.extend(view_contracts())
+    pdf_image_contract(reg)       # (verified by the EXTRA pdf_content_type on the function with its small helpers inlined)
     return out
 
 
@@ -1785,7 +1922,7 @@ def seq_lemmas(repo, tier):
     return {"obligations": out, "functions": []}
 
 
-EXTRA = [_site_runner(i) for i in range(len(SITES))] + [image_sites, sniffers_agree, seq_lemmas]
+EXTRA = [_site_runner(i) for i in range(len(SITES))] + [image_sites, sniffers_agree, seq_lemmas, pdf_content_type]
 
 
 def lemmas():
